@@ -73,9 +73,16 @@ def run(prop, tier):
         # the heavy suites are sliced in thorough
         jobs = [j for j in jobs if j[2] not in ('C01', 'C02')] + \
                [(n, o, s, c + ['--slice', '%d/4' % k]) for (n, o, s, c) in jobs if s in ('C01', 'C02') for k in range(4)]
+    jobs.sort(key=lambda j: (j[2] in ('C01', 'C02'), j[2] in ('C12', 'C17', 'C05')))
     env = dict(os.environ, UBSAN_OPTIONS='print_stacktrace=1:halt_on_error=0')
 
+    deadline = t0 + (25 * 60 if tier == 'thorough' else 8 * 60)
+    skipped = []
+
     def one(j):
+        if time.time() > deadline:
+            skipped.append(j)
+            return j, None
         p = subprocess.run(j[3], stdout=subprocess.PIPE, stderr=subprocess.PIPE, text=True, env=env)
         return j, p
     total = core.Result()
@@ -86,6 +93,8 @@ def run(prop, tier):
     with cf.ThreadPoolExecutor(core.NCPU) as ex:
         for j, p in ex.map(one, jobs):
             name, off, suite, cmd = j
+            if p is None:
+                continue
             r = core.Result()
             ok = r.parse(p.stdout)
             if not ok or p.returncode != 0:
@@ -107,6 +116,8 @@ def run(prop, tier):
         core.die_infra('explorer runs died:\n' + '\n'.join(died[:5]))
     allcfg = {(n, o) for n in exes for o in offs}
     res = core.Result()
+    if skipped:
+        res.incomplete.append('deadline reached: %d of %d explorer runs not started (heavy suites are scheduled last)' % (len(skipped), len(jobs)))
     res.counters = total.counters
     res.samples = ['world clang-O3, PDU at 16-byte boundary + 3: ' + s for s in total.samples[:3]]
     general = []
